@@ -654,6 +654,12 @@ class SCML_Supervised(_BaseSCML, TransformerMixin):
         lda.fit(X[idx_set[s][c, :]], y[idx_set[s][c, :]])
         start, finish = start_finish_indices[s, c:c+2]
         normalized_scalings = normalize(lda.scalings_.T)
+        if 0 < normalized_scalings.shape[0] < num_eig:
+          # LDA yields fewer than min(n_class-1, n_features) directions when
+          # the local class means are (numerically) linearly dependent: the
+          # block is completed by repeating the directions found
+          normalized_scalings = np.resize(normalized_scalings,
+                                          (num_eig, n_features))
         try:
           basis[start: finish, :] = normalized_scalings
         except ValueError:
